@@ -420,3 +420,168 @@ Definition run_C08_api (v : N) (raws : list rawloc) : val :=
       | _ =>                   (* Feature(locs=[...]) without type and metadata *)
           match mk_feature raws 0 with Some f => VL (map v_loc (flocs f)) | None => vErr end
       end].
+
+(* ---------------------------------------------------------------- composition laws (round 6) *)
+(* window of fts.slice(a1, b1, rel=r1).slice(a2, b2, rel=r2) read in the coordinates of fts: the second window is given in the
+   coordinates of the first result, i.e. shifted by r1 *)
+Definition win_lo (a1 a2 r1 : Z) : Z := Z.max a1 (a2 + r1).
+Definition win_hi (b1 b2 r1 : Z) : Z := Z.min b1 (b2 + r1).
+Definition obind {A B} (o : option A) (f : A -> option B) : option B := match o with Some x => f x | None => None end.
+Definition v_ofts (o : option (list feature)) : val := match o with Some k => v_fts k | None => vErr end.
+(* four observations on one list: slice twice | the single slice with the intersected window and the summed shift |
+   slice then rc(L') | rc(L) then slice with the mirrored window [L-b, L-a) and shift L-L'-r *)
+Definition run_C08_law (fs : list (list rawloc * Z)) (s1 e1 : option Z) (r1 : Z) (s2 e2 : option Z) (r2 L L' : Z) : val :=
+  let a1 := bound s1 (- maxsize) in let b1 := bound e1 maxsize in
+  let a2 := bound s2 (- maxsize) in let b2 := bound e2 maxsize in
+  VL [VB (forallb (fun p => forallb raw_ok (fst p)) fs && num_ok r1 && num_ok r2 && num_ok L && num_ok L' &&
+          num_ok (bound s1 0) && num_ok (bound e1 0) && num_ok (bound s2 0) && num_ok (bound e2 0));
+      match build fs with
+      | None => vErr
+      | Some st =>
+          VL [v_ofts (obind (slice s1 e1 r1 st) (slice s2 e2 r2));
+              v_ofts (slice (Some (win_lo a1 a2 r1)) (Some (win_hi b1 b2 r1)) (r1 + r2) st);
+              v_ofts (obind (slice s1 e1 r1 st) (fts_rc L'));
+              v_ofts (obind (fts_rc L st) (slice (Some (L - b1)) (Some (L - a1)) (L - L' - r1)))]
+      end].
+
+(* ---------------------------------------------------------------- operand types of the comparisons (round 6) *)
+(* what can stand on either side of <, <=, >, >= and as the argument of overlaps() *)
+Inductive operand :=
+| OpTuple (t : list loc)                      (* a LocationTuple *)
+| OpFeat (sid : option str) (t : list loc)    (* a Feature: meta.seqid (None when absent) and its locs *)
+| OpLoc                                       (* a Location: defines no ordering *)
+| OpPlain                                     (* a plain tuple: the base class of LocationTuple *)
+| OpOther.                                    (* int, str, None: unrelated to the classes of fts.py *)
+Inductive cmpop := CLt | CLe | CGt | CGe.
+(* result of one rich-comparison METHOD call: a bool, an exception raised inside the method, or NotImplemented *)
+Inductive cres := CVal (b : bool) | CRaise | CNotImpl.
+Definition swap_op (o : cmpop) : cmpop := match o with CLt => CGt | CLe => CGe | CGt => CLt | CGe => CLe end.
+Definition tuple_cmp (o : cmpop) (t u : list loc) : bool :=
+  match o with CLt => lt_lt t u | CLe => lt_le t u | CGt => lt_gt t u | CGe => lt_ge t u end.
+(* str < str of CPython on Latin-1 text: lexicographic by code point, a proper prefix is smaller *)
+Fixpoint str_ltb (s t : str) : bool :=
+  match s, t with
+  | _, [] => false
+  | [], _ :: _ => true
+  | c :: s', d :: t' => if N.ltb (Byte.to_N c) (Byte.to_N d) then true else if byte_eqb c d then str_ltb s' t' else false
+  end.
+Definition seqid_eq (a b : option str) : bool :=
+  match a, b with None, None => true | Some x, Some y => str_eqb x y | _, _ => false end.
+(* x.__op__(y) as written in fts.py: LocationTuple.__lt__/__le__/__gt__/__ge__ (204-234) raise for every other type;
+   Feature defines __lt__ only (365-373: seqids first when they differ, then the locs; a LocationTuple operand is accepted);
+   Location, tuple (for a non-tuple operand), int/str/None inherit methods that answer NotImplemented *)
+Definition method (o : cmpop) (x y : operand) : cres :=
+  match x with
+  | OpTuple t => match y with OpTuple u => CVal (tuple_cmp o t u) | _ => CRaise end
+  | OpFeat sx t =>
+      match o with
+      | CLt =>
+          match y with
+          | OpFeat sy u =>
+              if seqid_eq sx sy then CVal (lt_lt t u)
+              else match sx, sy with Some p, Some q => CVal (str_ltb p q) | _, _ => CRaise end   (* None < 'chr1' raises *)
+          | OpTuple u => CVal (lt_lt t u)
+          | _ => CRaise
+          end
+      | _ => CNotImpl
+      end
+  | OpLoc | OpPlain | OpOther => CNotImpl
+  end.
+(* CPython's binary rich comparison (Objects/object.c do_richcompare): the reflected method of the right operand is tried
+   first when its type is a proper subclass of the left operand's type, otherwise after a NotImplemented answer; two
+   NotImplemented answers make a TypeError for the ordering operators *)
+Definition py_cmp (o : cmpop) (x y : operand) : cres :=
+  let fwd := method o x y in
+  let bwd := method (swap_op o) y x in
+  let right_first := match x, y with OpPlain, OpTuple _ => true | _, _ => false end in
+  let r := if right_first then match bwd with CNotImpl => fwd | _ => bwd end
+           else match fwd with CNotImpl => bwd | _ => fwd end in
+  match r with CNotImpl => CRaise | _ => r end.
+(* x.overlaps(y), fts.py:244-253 and 379-388; None: x has no such method *)
+Definition overlaps_call (x y : operand) : option cres :=
+  match x with
+  | OpTuple t => Some (match y with OpTuple u => CVal (lt_overlaps t u) | _ => CRaise end)
+  | OpFeat _ t => Some (match y with OpFeat _ u => CVal (lt_overlaps t u) | OpTuple u => CVal (lt_overlaps t u) | _ => CRaise end)
+  | _ => None
+  end.
+Definition locs_of (x : operand) : option (list loc) :=
+  match x with OpTuple t => Some t | OpFeat _ t => Some t | _ => None end.
+(* the accepted operand combinations, as a table *)
+Definition cmp_accepts (o : cmpop) (x y : operand) : bool :=
+  match x, y with
+  | OpTuple _, OpTuple _ => true
+  | OpFeat _ _, OpTuple _ => match o with CLt => true | _ => false end
+  | OpFeat sx _, OpFeat sy _ =>
+      match o with
+      | CLt | CGt => seqid_eq sx sy || match sx, sy with Some _, Some _ => true | _, _ => false end
+      | _ => false
+      end
+  | _, _ => false
+  end.
+
+(* harness side: operand kind codes 0 LocationTuple, 1 Feature without seqid, 2 Feature seqid 'a', 3 Feature seqid 'B',
+   4 Feature seqid 'ab', 5 Location, 6 plain tuple, 7.. int / str / None *)
+Definition mk_operand (k : N) (t : list loc) : operand :=
+  match k with
+  | 0%N => OpTuple t
+  | 1%N => OpFeat None t
+  | 2%N => OpFeat (Some [x61]) t
+  | 3%N => OpFeat (Some [x42]) t
+  | 4%N => OpFeat (Some [x61; x62]) t
+  | 5%N => OpLoc
+  | 6%N => OpPlain
+  | _ => OpOther
+  end.
+Definition v_cres (r : cres) : val := match r with CVal b => VB b | _ => sTypeErr end.
+Definition ops_domain (x y : operand) : bool :=
+  match locs_of x, locs_of y with None, None => false | _, _ => true end.
+Definition run_C08_ops (kx ky : N) (r1 r2 : list rawloc) : val :=
+  let okd := forallb raw_ok r1 && forallb raw_ok r2 in
+  match all_some (map mk_raw r1), all_some (map mk_raw r2) with
+  | Some l1, Some l2 =>
+      match mk_loctuple l1, mk_loctuple l2 with
+      | Some t, Some u =>
+          let x := mk_operand kx t in let y := mk_operand ky u in
+          VL [VB (okd && ops_domain x y);
+              VL [v_cres (py_cmp CLt x y); v_cres (py_cmp CLe x y); v_cres (py_cmp CGt x y); v_cres (py_cmp CGe x y);
+                  match overlaps_call x y with Some r => v_cres r | None => VNone end;
+                  match overlaps_call y x with Some r => v_cres r | None => VNone end]]
+      | _, _ => VL [VB okd; vErr]
+      end
+  | _, _ => VL [VB okd; vErr]
+  end.
+
+(* ---------------------------------------------------------------- Location(start, stop): kinds of coordinate values (round 6) *)
+(* fts.py:84-86 checks `start >= stop` and nothing else: every orderable number is taken as it is. Values are represented
+   by twice their value so that half-integral floats are exact. *)
+Inductive coord :=
+| KInt (z : Z)        (* int *)
+| KBool (b : bool)    (* bool: an int subclass, False = 0, True = 1 *)
+| KNp (z : Z)         (* numpy.int64 *)
+| KHalf (z : Z)       (* the float z / 2 *)
+| KNone.              (* None: not orderable *)
+Definition twice (c : coord) : option Z :=
+  match c with
+  | KInt z => Some (2 * z) | KNp z => Some (2 * z) | KBool b => Some (if b then 2 else 0) | KHalf z => Some z | KNone => None
+  end.
+Definition int_value (c : coord) : option Z :=
+  match c with
+  | KInt z => Some z | KNp z => Some z | KBool b => Some (if b then 1 else 0)
+  | KHalf z => if Z.even z then Some (z / 2) else None
+  | KNone => None
+  end.
+Inductive lres := LAccept (a2 b2 : Z) | LValueError | LTypeError.
+Definition location_args (a b : coord) : lres :=
+  match twice a, twice b with
+  | Some x, Some y => if x >=? y then LValueError else LAccept x y
+  | _, _ => LTypeError          (* `None >= 3` raises TypeError before anything is stored *)
+  end.
+Definition coord_ok (c : coord) : bool :=
+  match c with KInt z => num_ok z | KNp z => num_ok z | KHalf z => num_ok z | _ => true end.
+Definition run_C08_args (a b : coord) : val :=
+  VL [VB (coord_ok a && coord_ok b);
+      match location_args a b with
+      | LAccept x y => VL [VI x; VI y]
+      | LValueError => vErr
+      | LTypeError => vTypeErr
+      end].
